@@ -452,6 +452,11 @@ def run(env, with_model=True):
     gen = [progs.text(g.program(env.rng.randint(1, 4))) for _ in range(env.budget(400, 4000))]
     uni = random_unicode(env, cp, env.budget(1500, 10000))
     marked = [(name, m, inject(tpl, m)) for name, tpl in POSITIONS for m in MARKERS]
+    # every code-page character (the dictionary-compression characters among them expand to other text) directly before each way
+    # of breaking out of a literal, in every position that holds string text
+    char_markers = [ch + q + ");ZQX(1)#" for ch in cp for q in ("'", '"', "", "\\\"")]
+    marked += [(name, m, inject(tpl, m)) for name, tpl in POSITIONS if "string" in name for m in char_markers]
+    env.note("character_breakout_markers", len(char_markers))
     var_single, var_pair = variable_sources(cp)
     var_pair_corr = env.rng.sample(var_pair, min(len(var_pair), env.budget(1500, 8000)))
     var_pos = [s for name, _, s in pos if name.startswith("variable") or (env.thorough and name == "string_in_structures")]
